@@ -28,6 +28,7 @@ type serveOpts struct {
 	preLine    func(r *scriptRunner) // before the handshake line (crash points...)
 	onExit     func()                // deferred code of the plugin (cleanup marker)
 	seventh    string                // seventh field ("" = "true" when mux, absent otherwise)
+	realStdout []byte                // written to the real stdout after the handshake line
 }
 
 // servePlugin is the script of a healthy plugin: what plugin.Serve does after
@@ -86,6 +87,10 @@ func servePlugin(o serveOpts) func(r *scriptRunner) {
 		io.WriteString(r.stdout, line[:h])
 		vs.Point("plugin:mid-line")
 		io.WriteString(r.stdout, line[h:])
+		if len(o.realStdout) > 0 {
+			out := o.realStdout
+			r.x.Go(r.dom.Name, func() { r.stdout.Write(out) })
+		}
 		for {
 			select {
 			case <-done:
